@@ -507,6 +507,19 @@ pub fn build(family: &str, tier: Tier) -> Vec<Cfg> {
                     out.push(c);
                 }
             }
+            // an ack timeout applies to QoS 0 publishes too (they wait for the write completion): the timeout fires while
+            // the write is stalled and the completion then finds one operation of its batch already gone
+            for cap in [4096usize, 6] {
+                let mut c = Cfg::base("timeouts", &format!("qos0-with-timeout-cap{}", cap));
+                c.cap = cap;
+                c.submits = vec![spec_t("pub0-500", publish("t", 0), 500), spec("pub0", publish("u", 0)), spec_t("pub1-500", publish("t", 1), 500)];
+                c.max_submits = 3; c.max_conns = 2; c.budget = if thorough { 3 } else { 2 }; c.max_depth = if cap == 6 { 60 } else { 26 };
+                c.allow.close = true; c.allow.tick_before = true; c.allow.idle_ticks = vec![300];
+                c.session_answers = vec![true];
+                c.clock = Clock::Late(vec![1, 700]);
+                c.closure = true;
+                out.push(c);
+            }
             for caps in [vec![4096usize, 5, 4096]] {
                 let mut c = Cfg::base("timeouts", &format!("caps{:?}-retries1", caps));
                 c.caps = caps; c.max_retries = Some(1);
